@@ -27,6 +27,38 @@ CLAIMS = {
             "Proof (partial): C11_union_decode_partial (under none_safe and no_shadow), C11_union_deviation_char (nothing else deviates), C11_no_cross_coercion, C11_union_raises_iff, C11_deterministic, C11_nested_union_partial, C11_opt, C11_union_encode_partial (under wire_disjoint), C11_literal theorems; refutation witnesses for the listed deviations (known findings, two pinned by upstream tests). Closed under the global context.",
             "Trusted: Coq kernel + vm_compute; hand-written UnionModel.v (parametric in member (un)packers and scalar coercions) tied by ~5.7k (quick) / 32k (thorough) correspondence cases per run; py_eq / kind_of models of Python == and exact type tests; harness conforms() and identity-packer classification.",
             "4 C11"),
+    "C07": ("Coq proof over a model of the from_dict field blocks, argument assembly and dataclass __init__ binding (all layouts, key subsets, values, conversions); vm_compute correspondence on all 2^n key subsets; independent introspection oracle",
+            "Proof (partial): C07_binding_partial / C07_binding / C07_missing / C07_null_wins / C07_positional_prefix / C07_noninit_unread / C07_factory_fresh hold for every layout where the builder's view of the class equals the dataclass truth; the full statement is refuted by two known findings (override inheriting a class default; annotated attribute of a non-dataclass base). Closed under the global context.",
+            "Trusted: Coq kernel + vm_compute; hand-written Bind.v tied by 8-11k (quick) / 130k (thorough) correspondence cases per run; CPython __init__ binding and default/factory materialisation modelled, not verified; harness extraction of class facts.",
+            "4 C07"),
+    "C08": ("Coq proof by induction over field lists and instance trees of a branch-faithful model of the generated to_dict body; kernels K3 (option lookup) and K8 (flag forwarding, kwargs-vs-literal test) translated from source each run; vm_compute correspondence incl. the full 21168-point namespace lattice (thorough); independent projection oracle",
+            "Proof (partial): C08_project_partial and C08_nested_partial: over the whole option lattice x keyword arguments x unbounded field lists and instance trees the generated mapping equals the projection of the plain output, nested classes receive exactly the flags enabled on both sides (K8_forward, C08_no_leak); K3_order re-proved against the source on every run. The full statements are refuted exactly at three corners (known findings D14, D8b, NaN default under omit_default). Closed under the global context.",
+            "Trusted: Coq kernel + vm_compute (+ coqchk in thorough); py2gallina + the K8 plugin's abstractions; hand models OptProj/OptNested tied by ~1.9k quick / 39k thorough cases; harness shape classification and twin generator; model of Python ==.",
+            "4 C08"),
+    "C09": ("Coq proof (reference keymodel = model of the generated from_dict built on three kernels translated from builder.py: alias precedence, key lookup plan, allowed-key set); vm_compute correspondence on all subsets of candidate keys; independent keymodel oracle",
+            "Proof: C09_keys_partial, K4_precedence, K4_key_plan, K4_allowed_keys, C09_alias_wins, C09_fallback, C09_accepted_covers_reads, C09_extra_exact, C09_ignored (17 theorems, closed) for every class configuration and input dict incl. shadowed/shared aliases and field-less classes; excluded: fields whose resolved alias is the empty string (refuted, known finding).",
+            "Trusted: Coq kernel + vm_compute; py2gallina + the K4 plugin's statement-shape slicer; encoding of Alias/Annotated/metadata/Config.aliases as kernel values; hand-written sequencing in KeyImpl checked against the real from_dict on every run; harness materialiser.",
+            "4 C09"),
+    "C13": ("Coq proof (state-machine invariant of the per-class dialect caches over every hierarchy and history; kernels K2 Dialect.merge, K3 option lookup, K13 Dialect attribute inventory translated from source each run); vm_compute correspondence of cache transitions; twin-class and cross-format oracle",
+            "Proof (partial): C13_isolation, C13_default_unaltered, C13_merge_total (all options bound by class Dialect, re-extracted each run: C13_merge_covers_all_options), C13_merge_strategies, C13_codec_option_uniform proved; 'dialect=D == twin class' proved off two refuted corners (known findings D14, D8b); C13_shared_cache_refuted documents why own-namespace cache creation matters. Cross-format document equality is by exhaustive option-vector sweep over six codecs, not by proof.",
+            "Trusted: Coq kernel + vm_compute (+ coqchk in thorough); hand models DialectCache.step, merge_strategies, call_effective, union_forward compared with /repo every run; py2gallina and the K13 extractor; harness materialiser; format libraries as parsers.",
+            "4 C13"),
+    "C14": ("Coq proof over an executable state-machine model of method installation (stubs, compiled slots, dialect caches, on-demand nested compilation), thread model with arbitrary schedules of GIL-atomic steps; vm_compute correspondence of slot/cache transitions with real cls.__dict__; twin-family history and thread oracle",
+            "Proof (partial): C14_call_state_independent / C14_history_partial (every answering call is independent of history and compilation mode), C14_first_call_terminates (measure 1+pending, after fix D5), C14_lazy_dialect_diverges (pre-fix model), C14_schedules_partial (safety + liveness for n threads, any schedule); the full history statement is refuted in the faithful model (4 known findings). Closed under the global context.",
+            "Trusted: Coq kernel + vm_compute; c14fam.py renderer and stub detector; GIL-atomic step model (pre-emption inside exec only sampled by stress runs); MRO, codecs, discriminators and non-dialect flags covered only by the Python oracle.",
+            "4 C14"),
+    "C15": ("Coq proof over a two-path (mixin dynamic dispatch / codec static dispatch) interpreter model: agreement, compositionality, creation-history frame; vm_compute correspondence with both real paths; entry-point oracle incl. one-shot functions and interleaved codec/subclass creation",
+            "Proof (partial): C15_agree_partial, C15_compositional_{list,dict,tuple,optional,field,wrapper}, C15_unpack_compositional_*, C15_frame_partial / C15_frame_history for all depths on exact-class values (closed); the four ways it fails off that domain are _refuted witnesses and known findings. No agreement theorem for decoding (tie + oracle only).",
+            "Trusted: Coq kernel + vm_compute; c15lib.py materialiser, has-method prediction, exception reduction; CPython primitives modelled; codec holders abstracted.",
+            "4 C15"),
+    "C16": ("Coq proof by induction over all strings (repr/ascii/bytes-repr followed by the string-literal lexer returns the string) + finite splice-site table regenerated from source by an AST taint scan (K10, vm_compute) + vm_compute correspondence of the repr/lexer model with CPython + adversarial oracle on the implementation",
+            "Proof: C16_repr_lex, C16_ascii_lex, C16_repr_bytes_lex for all strings; C16_sites / C16_site_literal: every data splice site of the generator as it is in /repo now is a repr/ascii site in an admissible context (34 rows), hence holds a literal denoting exactly s. Closed under the global context. Enum member names in Literal[...] and the empty alias are known findings.",
+            "Trusted: Coq kernel + vm_compute; PyStrLit model of CPython repr and tokenizer (compared every run); k10_splices.py and its explicit origin rules; before_ok/after_ok look only at the static text around the value.",
+            "4 C16"),
+    "C19": ("Coq proof over a hook-trace model of the generated to_dict/from_dict (writer monad of Pre/Post events, mixin vs codec dispatch, union try-each, context forwarding); vm_compute correspondence against the real hook log; independent traversal oracle",
+            "Proof (partial): C19_trace_partial (trace = pre/post-order traversal, union-free, both paths), C19_mixin_once (exactly once and in order with unions on the mixin path), C19_context, C19_de_trace_partial, C19_de_post_once (any schema, any input); the full statement is refuted by two known findings (codec union double pre hook; context lost for a later union member). Closed under the global context.",
+            "Trusted: Coq kernel + vm_compute; hand-written Hooks.v control-flow model checked on ~1k (quick) / 19.5k (thorough) cases per run; c19lib.py materialiser; CPython attribute lookup, keyword and exception semantics modelled.",
+            "4 C19"),
 }
 
 ALL = [f"C{i:02d}" for i in range(1, 21)]
